@@ -33,8 +33,9 @@ def execute(case):
         Ps = [10 + 3 * i for i in range(n)]
         s["P"] = np.array(Ps, dtype=float) * u.day
         s["e"] = np.zeros(n)
-        s["ln_prior"] = np.array(lp, dtype=float)
-        s["ln_likelihood"] = np.array(ll, dtype=float)
+        NEG = -1000000
+        s["ln_prior"] = np.array([(-np.inf if x <= NEG else x) for x in lp], dtype=float)
+        s["ln_likelihood"] = np.array([(-np.inf if x <= NEG else x) for x in ll], dtype=float)
         tr = {"id": case["id"], "kind": "map", "lp": lp, "ll": ll, "Ps": Ps, "raised": False, "idx": 0, "rowP": 0}
         try:
             row, idx = sa.MAP_sample(s, return_index=True)
@@ -121,6 +122,9 @@ def run(ctx, selftest=False):
         if rnd.random() < 0.4 and n > 1:       # make ln_likelihood's maximiser differ from the posterior's
             i, k = rnd.sample(range(n), 2)
             ll[i] = 9; lp[i] = -9; lp[k] = 6; ll[k] = 0
+        if rnd.random() < 0.4:                 # -inf terms (zero prior density / impossible data), anywhere in the table
+            for _ in range(rnd.randint(1, max(1, n // 2))):
+                rnd.choice([lp, ll])[rnd.randrange(n)] = -1000000
         cases.append({"id": "map-%d" % j, "kind": "map", "lp": lp, "ll": ll})
     traces = core.pmap(execute, cases, procs=8 if quick else 16, chunksize=32)
     for c, t in zip(cases, traces):
